@@ -167,7 +167,9 @@ def cleanup_old_processed_messages(
     """Clean up old processed message records."""
     cutoff = datetime.now(UTC) - timedelta(hours=max_age_hours)
     cursor = conn.execute(
-        "DELETE FROM processed_messages WHERE processed_at < :cutoff",
+        # processed_at is written by SQLite's datetime() ('YYYY-MM-DD HH:MM:SS'); normalise the
+        # ISO cutoff the same way, or the text comparison drops every record of the cutoff's day.
+        "DELETE FROM processed_messages WHERE processed_at < datetime(:cutoff)",
         {"cutoff": cutoff.isoformat()},
     )
     conn.commit()
